@@ -162,6 +162,8 @@ def ask(ureg, q, held=None):
             r = ureg.parse_expression(q[1], case_sensitive=False)
         elif kind == "name_ci":
             r = ureg.get_name(q[1], case_sensitive=False)
+        elif kind == "name":
+            r = (ureg.get_name(q[1]), ureg.get_symbol(q[1]))
         elif kind == "root":
             r = ureg.get_root_units(q[1])
         elif kind == "base":
@@ -507,7 +509,17 @@ def run_default(task, tier, seed, col):
     COLL = [("kilotonne", "kt", "knot"), ("milliinch", "min", "minute"), ("centiday", "cd", "candela"), ("petayear", "Pa", "pascal"), ("femtotonne", "ft", "foot"), ("nanomile", "nmi", "nautical_mile")]
     coll = st.sampled_from(COLL).map(lambda t: [("Q", "root", t[0]), ("Q", "format", 3, t[0], "~"), ("Q", "root", t[1]), ("Q", "convert", 2, t[1], t[2]), ("Q", "dim", t[1]), ("Q", "parse_expr", "3 " + t[1]),
                                                  ("Q", "format", 3, t[2], "~")])
-    strat = st.one_of(free, free, coll).map(lambda ops: {"ops": [list(o) for o in ops]})
+    # motif: a spelling written in the definitions that also reads as prefix + unit (milliarcsecond, kilometer_per_second, ...) is asked
+    # before and after the same prefixed unit was reached through its short spellings
+    R_ = env.R()
+    named = []
+    for s_ in sorted(R_.spell):
+        for p_, u_ in R_.readings(s_):
+            if p_ and u_ in R_.units and s_ == p_ + u_:  # the spelling is exactly prefix name + unit name: the key a lazily built prefixed unit gets
+                ps = R_.prefixes[p_].symbol or p_
+                us = R_.units[u_].symbol or u_
+                named.append([("Q", "name", s_), ("Q", "root", s_), ("Q", "root", ps + us), ("Q", "root", p_ + u_ + "s"), ("Q", "name", s_), ("Q", "root", s_), ("Q", "format", 3, s_, "~")])
+    strat = st.one_of(free, free, coll, *([st.sampled_from(named)] if named else [])).map(lambda ops: {"ops": [list(o) for o in ops]})
     hyp_search(col, strat, lambda c: case_default(c, col), max_examples=25 if tier == "quick" else 600, seed=seed * 223 + task["shard"], shrink_budget_s=90)
 
 
